@@ -631,6 +631,17 @@ where
             .produce_block_parent_not_ready(slot, parent_block_id, parent_ready_receiver)
             .await
     }
+
+    /// Runs the real [`BlockProducer::block_production_loop`] (from the genesis window on),
+    /// until the token of [`Self::verif_cancel_token`] is seen cancelled at the top of a window.
+    pub async fn verif_block_production_loop(&self) -> Result<()> {
+        self.0.block_production_loop().await
+    }
+
+    /// The cancellation token the loop checks at the top of every window.
+    pub fn verif_cancel_token(&self) -> CancellationToken {
+        self.0.cancel_token.clone()
+    }
 }
 
 #[cfg(test)]
